@@ -102,7 +102,7 @@ def stringvalue(string):
     return string.replace('\\' + string[0], string[0])[1:-1]
 
 
-_match_forbidden_in_uri = re.compile(r'''.*?[\(\)\s\;,'"\x00-\x1f\x7f]|.*\\$''', re.U | re.S).match
+_match_forbidden_in_uri = re.compile(r'''.*?[\(\)\s\;,'"\x00-\x1f\x7f]''', re.U).match
 
 
 def uri(value):
@@ -111,9 +111,14 @@ def uri(value):
 
         ``"`` => ``url("\"")``
     """
-    if _match_forbidden_in_uri(value):
+    if _match_forbidden_in_uri(value) or _ends_with_single_backslash(value):
         value = string(value)
     return 'url(%s)' % value
+
+
+def _ends_with_single_backslash(value):
+    "a backslash at the end which is not part of an escaped backslash"
+    return (len(value) - len(value.rstrip('\\'))) % 2 == 1
 
 
 def urivalue(uri):
